@@ -35,6 +35,11 @@ type cEval struct {
 	maxVisits int
 	maxPaths  int
 
+	// lenOf gives len(x) for values the rule fixes by length (parameters); used for len calls here
+	// and, through the call, inside same-package helpers that receive x as an argument
+	lenOf func(x ssa.Value) (int64, bool)
+	depth int // nesting of helper evaluation
+
 	paths     []cPath
 	undecided string
 }
@@ -153,6 +158,66 @@ func (e *cEval) step(env cEnv, in ssa.Instruction) {
 			env[x] = a
 		}
 	case *ssa.Call:
+		if b, ok := x.Call.Value.(*ssa.Builtin); ok && b.Name() == "len" && e.lenOf != nil {
+			if n, known := e.lenOf(x.Call.Args[0]); known {
+				env[x] = n
+				return
+			}
+		}
+		// a helper of the same package with one basic result: evaluated with the caller's values for
+		// its parameters (and their lengths); the call has a value when every return agrees
+		if callee := x.Call.StaticCallee(); callee != nil && callee.Pkg != nil && callee.Pkg == e.fn.Pkg && len(callee.Blocks) > 0 && e.depth < 2 && callee != e.fn {
+			if _, isBasic := x.Type().Underlying().(*types.Basic); isBasic && len(callee.Params) == len(x.Call.Args) {
+				args := x.Call.Args
+				paramIdx := func(v ssa.Value) int {
+					for k, q := range callee.Params {
+						if ssa.Value(q) == v {
+							return k
+						}
+					}
+					return -1
+				}
+				sub := &cEval{fn: callee, maxVisits: e.maxVisits, maxPaths: 512, depth: e.depth + 1}
+				sub.seed = func(v ssa.Value) (int64, bool) {
+					if k := paramIdx(v); k >= 0 {
+						return e.val(env, args[k])
+					}
+					if e.seed != nil {
+						return e.seed(v)
+					}
+					return 0, false
+				}
+				sub.lenOf = func(v ssa.Value) (int64, bool) {
+					if k := paramIdx(v); k >= 0 && e.lenOf != nil {
+						return e.lenOf(args[k])
+					}
+					return 0, false
+				}
+				sub.run()
+				if sub.undecided == "" {
+					have, val, same := false, int64(0), true
+					for _, pa := range sub.paths {
+						if pa.ret == nil || len(pa.ret.Results) != 1 {
+							continue
+						}
+						rv, known := sub.val(pa.env, pa.ret.Results[0])
+						if !known {
+							same = false
+							break
+						}
+						if have && rv != val {
+							same = false
+							break
+						}
+						have, val = true, rv
+					}
+					if have && same {
+						env[x] = val
+						return
+					}
+				}
+			}
+		}
 		if b, ok := x.Call.Value.(*ssa.Builtin); ok && (b.Name() == "len" || b.Name() == "cap") {
 			// len of a slice expression with known bounds
 			if sl, ok := x.Call.Args[0].(*ssa.Slice); ok && b.Name() == "len" {
